@@ -4,7 +4,7 @@ spec:   spec/ResponseEmit.tla       case -> emission state machine (RenderFails,
                                     StreamSendChunk, CloseStream, Eof, SseNext, SseSend) + the property clauses
         spec/MC_ResponseEmit.tla    bounded case tables (one initial state per case), JSON export of every behaviour
         spec/ResponseEmitTrace.tla  trace judge: the same clause operators evaluated on recorded observations
-legs:   M  exhaustive TLC check of the emission design over the whole case table (+ the four wrong-design
+legs:   M  exhaustive TLC check of the emission design over the whole case table (+ the five wrong-design
            switches must each break their invariant)
         A  every behaviour TLC exported is replayed on the real falcon.App / falcon.asgi.App under the independent
            PEP 3333 / ASGI monitors of engine.drivers, with scheduled render / stream / send faults; the observation is
@@ -22,9 +22,11 @@ META = {
                   'the case table status x form x method x body sources x preset headers x interface x fault point; '
                   'every case of the table is executed on the real WSGI and ASGI apps and compared with the behaviour '
                   'TLC computed; random responses beyond the table are judged by TLC with the same clause operators.',
-    'level_note': 'Bounded: table of 3.6e4 (quick) / 3.8e5 (thorough) cases, <= 3 stream items (bytes, empty, None), SSE scripts '
+    'level_note': 'Bounded: table of 3.7e4 (quick) / 4.0e5 (thorough) cases, <= 3 stream items (bytes, empty, None), SSE scripts '
                   'of <= 4 items (events and None pings in every position); random leg <= 5 items, 18 status codes, 6 '
-                  'methods. Extra headers carry str/int/float values through set_header, append_header, set_headers (dict '
+                  'methods. Status spellings: int, registry line, own-reason line, http.HTTPStatus, bare code string, bytes '
+                  'line, bytes code (the last three with plain headers and without data in the table; everywhere in the '
+                  'random leg, also set by error handlers and raised HTTPStatus/HTTPError). Extra headers carry str/int/float values through set_header, append_header, set_headers (dict '
                   'and pairs), a typed property, HTTPStatus(headers=) and (random leg) HTTPError(headers=). Stream/send fault points are explored for int-status, '
                   'plain-header cases, the render-phase fault for every int-status case (all body sources and preset '
                   'headers). After a render-phase fault (the first rendering raises, or the renewed one too) the body belongs '
@@ -308,12 +310,19 @@ def status_value(case):
         return getattr(falcon, 'HTTP_%d' % code)
     if form == 'xline':
         return '%d Custom Reason' % code
+    if form == 'strcode':                  # just the code, as a string
+        return '%d' % code
+    if form == 'bytescode':
+        return b'%d' % code
+    if form == 'bytes':                    # a status line as bytes: the registry's, or the application's own
+        line = getattr(falcon, 'HTTP_%d' % code, None) or '%d Custom Reason' % code
+        return line.encode('ascii')
     raise MachineryError('unknown status form %r' % form)
 
 
 def forms_of(code):
     import falcon
-    fs = ['int', 'xline']
+    fs = ['int', 'xline', 'strcode', 'bytes', 'bytescode']
     if hasattr(falcon, 'HTTP_%d' % code):
         fs.append('line')
     if code in set(int(s) for s in http.HTTPStatus):
@@ -396,6 +405,8 @@ def fill(resp, is_asgi):
         import falcon
         log.renderFailed = True
         log.renderFails += 1
+        if var.get('handler_status') is not None:      # the status of the error spelled by the application
+            raise falcon.HTTPError(var['handler_status'], headers={'Retry-After': 120, 'X-Backoff': 1.5})
         raise falcon.HTTPServiceUnavailable(headers={'Retry-After': 120, 'X-Backoff': 1.5})
     if by_status:
         import falcon
@@ -427,8 +438,8 @@ def _maybe_render_fault():
 
 
 def _own_error_handler_fill(resp):
-    import falcon
-    resp.status = falcon.HTTP_503
+    # an error handler may spell the status any way a responder may
+    resp.status = CUR['variant'].get('handler_status', '503 Service Unavailable')
     resp.text = 'handled by the application'
 
 
@@ -568,10 +579,14 @@ def execute(case, variant):
         cts = res.header_all('content-type')
         cl = -1 if not cls else (_int31(cls[0]) if len(cls) == 1 else -3)
         ct = 'none' if not cts else ('app' if cts == [APP_CT] else 'fw')
-        return {'k': 'start', 'n': 0, 'more': True, 'src': '', 'idx': -1, 'cl': cl, 'ct': ct}
+        if is_asgi:
+            sl = isinstance(res.status, int) and not isinstance(res.status, bool) and 100 <= res.status <= 999
+        else:               # PEP 3333: a native string "DDD SP reason-phrase"
+            sl = isinstance(res.status_line, str) and re.fullmatch(r'[1-9][0-9][0-9] [^\r\n]*', res.status_line) is not None
+        return {'k': 'start', 'n': 0, 'more': True, 'src': '', 'idx': -1, 'cl': cl, 'ct': ct, 'sl': bool(sl)}
 
     def body_event(n, more):
-        return {'k': 'body', 'n': n, 'more': bool(more), 'src': '', 'idx': -1, 'cl': -1, 'ct': ''}
+        return {'k': 'body', 'n': n, 'more': bool(more), 'src': '', 'idx': -1, 'cl': -1, 'ct': '', 'sl': True}
 
     if is_asgi:
         for e in res.events:
@@ -583,20 +598,20 @@ def execute(case, variant):
                 ev.append(body_event(len(b) if isinstance(b, (bytes, bytearray, memoryview)) else 0,
                                      e.get('more_body', False)))
             else:
-                ev.append({'k': 'other', 'n': 0, 'more': True, 'src': '', 'idx': -1, 'cl': -1, 'ct': ''})
+                ev.append({'k': 'other', 'n': 0, 'more': True, 'src': '', 'idx': -1, 'cl': -1, 'ct': '', 'sl': True})
     else:
         if res.status_line is not None or res.raw_headers:
             ev.append(start_event())
         for ch in res.chunks:
             ev.append(body_event(len(ch), True))
         if res.iterable is not None and res.exc is None and not res.extra.get('send_failed'):
-            ev.append({'k': 'eof', 'n': 0, 'more': False, 'src': '', 'idx': -1, 'cl': -1, 'ct': ''})
+            ev.append({'k': 'eof', 'n': 0, 'more': False, 'src': '', 'idx': -1, 'cl': -1, 'ct': '', 'sl': True})
     return {'c': case, 'ev': ev, 'pieces': pieces_of(res.body, case), 'begun': log.begun, 'closes': log.closes,
             'raised': log.raised, 'sendFailed': bool(res.extra.get('send_failed')), 'renderFailed': log.renderFailed,
             'renderFails': log.renderFails,
             'exc': res.exc is not None,
             'errors': len(res.errors),
-            '_info': {'exc': repr(res.exc) if res.exc is not None else None, 'errors': res.errors[:3], 'status': res.status,
+            '_info': {'exc': repr(res.exc) if res.exc is not None else None, 'errors': res.errors[:3], 'status': res.status, 'status_line': res.status_line if not is_asgi else res.status,
                       'headers': res.headers[:8], 'body': repr(res.body[:60]), 'hang': hang}}
 
 
@@ -682,6 +697,8 @@ def compare_with_behaviour(b, obs):
                 P('OthersHaveType', 'status %r without Content-Type' % info['status'])
             else:
                 notes.append(('D:content_type', 'class %r, specification %r' % (st['ct'], b['ct'])))
+        if st['sl'] != b['sl']:
+            P('StatusLineWellFormed', 'status handed to the server: %r' % (info.get('status_line', info['status']),))
         if info['status'] != b['eff']['code']:
             notes.append(('D:status', 'status %r, specification %r' % (info['status'], b['eff']['code'])))
     if obs['closes'] > 1 or (obs['begun'] and case['stream'] in ('iter', 'file') and obs['closes'] != 1):
@@ -761,6 +778,8 @@ def random_case(rng):
     if case['fk'] == 'render':
         render_variant(case, variant, rng.random() < 0.5)
         variant['err_handler'] = rng.random() < 0.3          # the application's own handler takes the fault
+        if rng.random() < 0.6:                                # ... and spells the error's status in one of the accepted ways
+            variant['handler_status'] = rng.choice(('503', b'503', b'503 Service Unavailable', 503, '503 Busy', '799', 799))
         if case['fa'] == 1 and rng.random() < 0.25:
             variant['render_mode'] = 'http_error'             # the responder raises an HTTPError with headers of its own
     return case, variant
@@ -825,7 +844,8 @@ def _run(ctx):
     ctx.progress('leg M done: %d states' % r.distinct)
     # vacuity: each wrong-design switch must break its invariant
     for sw, inv in (('RenderSetsType', 'TypelessHaveNoFrameworkType'), ('BodilessByLine', None),
-                    ('ForgetCloseOnFault', 'CloseExactlyOnceOnceBegun'), ('StaleLengthOnRenderFault', 'LengthConsistent')):
+                    ('ForgetCloseOnFault', 'CloseExactlyOnceOnceBegun'), ('StaleLengthOnRenderFault', 'LengthConsistent'),
+                    ('StatusStringAsIs', 'StatusLineWellFormed')):
         rv = ctx.tlc('MC_ResponseEmit', 'MC_ResponseEmit_%s.cfg' % sw, workers=4, timeout=300, must_hold=False, count=False)
         if not rv.violated or (inv and rv.violated != inv):
             raise MachineryError('wrong-design switch %s: expected invariant %s to fail, TLC reported %r'
